@@ -199,6 +199,9 @@ func genNodeState(r *rand.Rand, o genOpts) *nodeState {
 		tot += v
 	}
 	s.UseCPUReq = math.Round(float64(tot)/float64(base)*100) / 100
+	if r.Intn(3) == 0 { // workloads without cpu binding add their cpu request to usage.cpu but pin no pieces
+		s.UseCPUReq = math.Round((s.UseCPUReq+float64(r.Intn(2*n*100+1))/100)*100) / 100
+	}
 	// memory in units so that small integer ratios are common
 	unit := int64([]int{1, 50, 1 << 20}[r.Intn(3)])
 	s.CapMem = unit * int64(4+r.Intn(60))
